@@ -27,7 +27,7 @@ OUTSIDE = ["headings inside wrappers (C05)", "directives other than admonitions"
 STUBS = ["file system: temporary directory created at run time for the included file"]
 NONTRIVIAL_RULE = "paths whose X contains a definition (link reference, target or footnote) or a nested directive"
 
-XK = ["para", "emph", "list", "quote", "code", "refdef-use", "target-link", "footnote", "nested-note", "two-paras", "html", "hardbreak", "tabs", "rule-in-body", "indented-code-first", "inline-spaces", "dashes-line", "formfeed"]
+XK = ["para", "emph", "list", "quote", "code", "refdef-use", "target-link", "footnote", "nested-note", "two-paras", "html", "hardbreak", "tabs", "rule-in-body", "indented-code-first", "inline-spaces", "dashes-line", "formfeed", "all-indented", "code-blank-spaces"]
 
 
 def setup():
@@ -49,6 +49,8 @@ def x_lines(kind, n):
         "html": ["<div>X%d</div>" % n],
         "hardbreak": ["X%d first  " % n, "second\\", "third line"],  # trailing double space / backslash = hard line breaks
         "formfeed": ["X%d a\x0cb c\u2028d" % n, "e\x0bf", "", "next para"],  # characters that str.splitlines treats as line breaks but Markdown does not
+        "all-indented": ["    only code %d" % n, "      deeper", "", "    last code line"],  # every line indented: an indented code block, also inside a directive
+        "code-blank-spaces": ["```text", "a%d" % n, "   ", "\tb", "```"],  # a line of spaces inside a fenced code block
         "inline-spaces": ["X%d `a  b`  two  spaces\tand a tab" % n, "second  line"],
         "dashes-line": ["X%d para" % n, "", "second para", "-- a line that starts with dashes inside a paragraph", "continues", "", "last para"],
         "rule-in-body": ["X%d before the rule" % n, "", "---", "", "after the rule", "", "-----"],
@@ -57,7 +59,7 @@ def x_lines(kind, n):
     }[kind]
 
 
-WRAPPERS = ["note-backtick", "note-colon", "note-class", "note-dashes", "note-blank2", "nested2", "nested3", "include", "substitution", "colon-in-backtick", "colon-firstline", "backtick-firstline", "epigraph"]
+WRAPPERS = ["note-backtick", "note-colon", "note-class", "note-dashes", "note-blank2", "nested2", "nested3", "include", "substitution", "colon-in-backtick", "colon-firstline", "backtick-firstline", "epigraph", "include-markers"]
 FIRSTLINE_OK = ["para", "emph", "two-paras", "inline-spaces", "dashes-line", "formfeed"]  # kinds whose first line may sit on the fence line of an argument-less directive
 
 
@@ -113,7 +115,7 @@ def body_of(doc, w):
     """The list of nodes that correspond to X inside wrapper w."""
     from docutils import nodes
 
-    if w in ("include", "substitution"):
+    if w in ("include", "substitution", "include-markers"):
         return [c for c in doc.children if not isinstance(c, nodes.caution)]
     if w == "epigraph":
         cands = [c for c in doc.children if isinstance(c, nodes.block_quote)]
@@ -155,7 +157,15 @@ def run_case(kinds, w, real=False):
     # the uses are placed in a LATER directive body: link reference definitions are resolved by markdown-it at
     # tokenisation time, so only text that is tokenised after the wrapper was rendered (a later nested parse) can see them
     after = ["", "````{caution}", "AFTER " + " ".join(uses), "````"]
-    if w == "include":
+    if w == "include-markers":
+        # the snippet sits between two occurrences of the SAME marker: start-after is applied first, end-before to what remains
+        with tempfile.TemporaryDirectory(prefix="symx_c06_") as d:
+            open(os.path.join(d, "inc.md"), "w").write("head text\n\n<!-- snip -->\n" + "\n".join(xl) + "\n<!-- snip -->\n\ntail text\n")
+            text = "\n".join(["```{include} inc.md", ":start-after: <!-- snip -->", ":end-before: <!-- snip -->", "```"] + after) + "\n"
+            src = os.path.join(d, "src.md")
+            doc = parse_only(text, real=real, source=src)
+            full, warn = CR.publish(text, {"myst_enable_extensions": ["colon_fence", "substitution"], "report_level": 2}, real=real, source=src)
+    elif w == "include":
         with tempfile.TemporaryDirectory(prefix="symx_c06_") as d:
             open(os.path.join(d, "inc.md"), "w").write("\n".join(xl) + "\n")
             text = "\n".join(["```{include} inc.md", "```"] + after) + "\n"
